@@ -3,11 +3,13 @@
    as the property says (pattern escaped unless regex=True, IGNORECASE unless match_case=True, first
    `count` non-overlapping matches) and the correspondence check compares the implementation's own
    format_matching / unformat_matching with this model on the same spans.  What is proved is that the
-   model's operation IS the explicit loop, that the text never changes, and that without a match
-   nothing changes. *)
+   model's operation IS the explicit loop, that the text never changes, that without a match nothing
+   changes, that characters outside all matches keep their settings (the same objects in the same
+   order), and what the characters of each match gain / lose.  `good f nid a` is the reachable-value
+   invariant of C09 for one value (well formed, identities below the allocation counter, coherent). *)
 From AS Require Import Base Effects.
 From AS.Model Require Import Sgr Table Ops Scrub Parse Exec.
-From AS.Proofs Require Import BasicProofs MatchProofs.
+From AS.Proofs Require Import BasicProofs MatchProofs InvariantProofs RemoveProofs MatchProofs2.
 Local Open Scope Z_scope.
 
 Theorem C16_format_is_loop : forall p nid i spans fx o, get p (Z.to_nat i) = Some o ->
@@ -36,3 +38,44 @@ Print Assumptions C16_text_unformat.
 Theorem C16_no_match : forall a f g nid, apply_spans a f [] nid = OK (a, nid) /\ remove_spans a g [] = OK a.
 Proof. intros; split; reflexivity. Qed.
 Print Assumptions C16_no_match.
+
+(* characters outside all matches keep their settings; the value stays well formed *)
+Theorem C16_format_outside : forall f nid a fm spans a' nid', good f nid a ->
+  apply_spans a fm spans nid = OK (a', nid') ->
+  base a' = base a /\ (exists f', ext nid f f' /\ (nid <= nid')%nat /\ good f' nid' a')
+  /\ forall k, outside (length (base a)) spans k -> active_at (tbl a') k = active_at (tbl a) k.
+Proof. exact format_matching_outside. Qed.
+Theorem C16_unformat_outside : forall f n a fm spans a', good f n a ->
+  remove_spans a fm spans = OK a' ->
+  base a' = base a /\ good f n a'
+  /\ forall k, outside (length (base a)) spans k -> active_at (tbl a') k = active_at (tbl a) k.
+Proof. exact unformat_matching_outside. Qed.
+Print Assumptions C16_format_outside.
+Print Assumptions C16_unformat_outside.
+
+(* inside a match, for non-overlapping matches in increasing order (what re.finditer yields): the
+   characters of match sp lose exactly the selected settings (all of them for no format / None) ... *)
+Theorem C16_unformat_inside : forall f n a fm sel pre sp post a', good f n a ->
+  optform_falsy fm = false -> sel_of fm sel -> ordered (length (base a)) (pre ++ sp :: post) ->
+  range_empty (length (base a)) (span_lo (length (base a)) sp) (span_hi (length (base a)) sp) = false ->
+  remove_spans a fm (pre ++ sp :: post) = OK a' ->
+  forall k, inside (length (base a)) sp k -> active_at (tbl a') k = RemoveProofs.keep sel (active_at (tbl a) k).
+Proof. exact unformat_matching_inside. Qed.
+Print Assumptions C16_unformat_inside.
+(* ... and gain exactly the new settings, as one block on top at the first character of the match *)
+Theorem C16_format_inside : forall f nid a fm texts pre sp post a' nid', good f nid a ->
+  form_falsy fm = false -> scrub fm = OK texts -> texts <> [] ->
+  ordered (length (base a)) (pre ++ sp :: post) ->
+  range_empty (length (base a)) (span_lo (length (base a)) sp) (span_hi (length (base a)) sp) = false ->
+  apply_spans a fm (pre ++ sp :: post) nid = OK (a', nid') ->
+  let n1 := (nid + length texts * nonempty_count (length (base a)) pre)%nat in
+  let new := fst (fresh texts n1) in
+  (n1 + length texts <= nid')%nat /\ map stxt new = texts /\
+  forall k, inside (length (base a)) sp k ->
+    exists l1 l2, active_at (tbl a) k = l1 ++ l2 /\ active_at (tbl a') k = l1 ++ new ++ l2
+      /\ (forall x, In x l1 -> In x (active_at (tbl a) (span_lo (length (base a)) sp)))
+      /\ (k = span_lo (length (base a)) sp -> l2 = []).
+Proof. exact format_matching_inside. Qed.
+Print Assumptions C16_format_inside.
+
+Example C16_example := MatchExamples.ex_apply_spans.
